@@ -72,13 +72,14 @@ Inductive case : Set :=
             (edepth : nat) (eargs : list val) (ekw : option kwmap)
   (* rule scan for a module name *)
   | CRule (id : nat) (name : string) (e : rule_action)
+  | COverload (id : nat) (o : ov_sit) (mapped : bool)
   | CUnsup (id : nat) (u : unsup_sit) (e : bool)
   | CAllow (id : nat) (w : allow_sit) (e : bool).
 
 Definition case_id (c : case) : nat :=
   match c with
   | CPolicy id _ _ | CDirect id _ _ _ _ _ _ | CUnwrap id _ _ _ _ _ _ _ | CRule id _ _
-  | CUnsup id _ _ | CAllow id _ _ => id
+  | CUnsup id _ _ | CAllow id _ _ | COverload id _ _ => id
   end.
 
 Definition check_case (c : case) : bool :=
@@ -93,6 +94,9 @@ Definition check_case (c : case) : bool :=
       | (c', a, k) => Nat.eqb (depth c') edepth && vals_beq a eargs && okw_beq k ekw
       end
   | CRule _ name e => rule_action_eqb (rule_scan matches_gen rules_gen name) e
+  | COverload _ o mapped =>
+      match first_match (ov_atoms o) overload_gen with
+      | Some OvMapped => mapped | Some OvSelf => negb mapped | None => false end
   | CUnsup _ u e =>
       match first_match (unsup_atoms u) unsupported_gen with Some b => Bool.eqb b e | None => false end
   | CAllow _ w e =>
